@@ -94,11 +94,17 @@ class C08(Prop):
 
     def cases(self, rng: random.Random, tier: str) -> Iterable[dict]:
         C08._variant = -1
-        forced = [0.05, 0.14, 0.17, 0.18, 0.18, 0.18, 0.18, 0.18, 0.23, 0.265, 0.265] * 2      # every dedicated family, whatever the seed
+        forced = [0.05, 0.14, 0.17, 0.18, 0.18, 0.18, 0.18, 0.18, 0.23, 0.265, 0.265, 0.275, 0.275, 0.285] * 2      # every dedicated family, whatever the seed
         while True:
             r = forced.pop() if forced else rng.random()
             if 0.26 <= r < 0.27:
                 c = self._mapped_default(rng)
+            elif 0.27 <= r < 0.28:
+                c = self._narrowed_after_bind(rng)
+            elif 0.28 <= r < 0.29:
+                for c in self._inner_binding_twins(rng):
+                    yield {"program": copy.deepcopy(c["program"]), "known": c["values"], "rtselect": c["rtselect"], "ops": {"twins": 1}, "runner": "sync"}
+                continue
             elif r < 0.12:
                 c = self._entry_bypass(rng)
             elif r < 0.16:
@@ -157,6 +163,42 @@ class C08(Prop):
                 ops["rtselect"] = rtsel
             yield {"program": program, "known": [[k, v] for k, v in known.items()], "rtselect": rtsel, "ops": ops,
                    "runner": rng.choice(["sync", "async"]), "rtselectTuple": rtsel is not None and rng.random() < 0.5}
+
+    @staticmethod
+    def _narrowed_after_bind(rng: random.Random) -> dict:
+        """A name bound INSIDE a nested graph whose selection (applied after the bind) no longer needs it: the binding is private to the
+        inner graph — an outer node that takes the same name still requires it from the caller."""
+        inner = {"name": "inner", "nodes": [{"name": "f", "kind": "fn", "params": [["x", None]], "dataOuts": ["a"], "body": {"b": "sum", "k": 1}},
+                                            {"name": "g", "kind": "fn", "params": [["a", None], ["lang", None]], "dataOuts": ["b"], "body": {"b": "tag", "t": "g"}}],
+                 "bound": [["lang", rng.randint(1, 9)]], "selected": ["a"]}
+        prog = [inner]
+        w = {"name": "w", "kind": "graph", "inner": 0}
+        if rng.random() < 0.4:
+            prog.append({"name": "mid", "nodes": [w, {"name": "m", "kind": "fn", "params": [["a", None]], "dataOuts": ["am"], "body": {"b": "sum", "k": 0}}], "bound": [], "selected": ["a", "am"]})
+            w = {"name": "mid", "kind": "graph", "inner": 1}
+        top = [w, {"name": "h", "kind": "fn", "params": [["a", None], ["lang", None]], "dataOuts": ["c"], "body": {"b": "tag", "t": "h"}}]
+        rng.shuffle(top)
+        prog.append({"name": "root", "nodes": top, "bound": []})
+        return {"program": prog, "values": [["x", rng.randint(0, 3)], ["lang", rng.randint(10, 19)]], "fixed_ops": True}
+
+    @staticmethod
+    def _inner_binding_twins(rng: random.Random) -> list[dict]:
+        """TWO graphs of one process with the same wiring and the same run-time selection that differ only in what is bound INSIDE their nested
+        graph (or in how an input that is on no edge is named): what each one requires is its own."""
+        def prog(bound_inside: bool, ren: bool) -> list[dict]:
+            inner = {"name": "inner", "nodes": [{"name": "f", "kind": "fn", "params": [["x", None], ["k", None]], "dataOuts": ["a"], "body": {"b": "tag", "t": "f"}}],
+                     "bound": [["k", 5]] if bound_inside else []}
+            top = [{"name": "w", "kind": "graph", "inner": 0, "inRen": [["x", "text"]] if ren else []},
+                   {"name": "h", "kind": "fn", "params": [["a", None], ["top_k", None]], "dataOuts": ["hits"], "body": {"b": "tag", "t": "h"}},
+                   {"name": "side", "kind": "fn", "params": [["a", None]], "dataOuts": ["s"], "body": {"b": "tag", "t": "side"}}]
+            return [inner, {"name": "root", "nodes": top, "bound": []}]
+        variants = [(True, False), (False, False), (False, True), (True, True)]
+        rng.shuffle(variants)
+        out = []
+        for b, r in variants[: rng.randint(2, 4)]:
+            vals = [["text" if r else "x", 1], ["k", 2], ["top_k", 3]]
+            out.append({"program": prog(b, r), "values": vals, "fixed_ops": True, "rtselect": ["hits"]})
+        return out
 
     @staticmethod
     def _mapped_default(rng: random.Random) -> dict:
